@@ -41,3 +41,27 @@ Definition check_coupling_case (c : bool * bool * option (bool * bool)) : bool :
   | Some (a, s), Some (a', s') => Bool.eqb a a' && Bool.eqb s s'
   | _, _ => false
   end.
+
+(* checker of the correspondence stream `mpsterm` (jobs `ops_list`) of harness/c12.py: the triple (ops, i_min, has_extra_JW)
+   returned by MPS._term_to_ops_list(term, autoJW, 0, JW_from_right) with the operators left as NAMES, for JW_from_right in
+   {None, False, True}, versus the word model term_to_ops_list of Model/JW.v.  Letters are encoded as (id, odd), id = 0 for 'JW'. *)
+Definition enc_letter12 (l : letter) : Z * bool := match l with Op a o => (a, o) | JWl => (0, true) end.
+Fixpoint pairs_eqb12 (a b : list (Z * bool)) : bool :=
+  match a, b with
+  | [], [] => true
+  | (x, p) :: a', (y, q) :: b' => (x =? y) && Bool.eqb p q && pairs_eqb12 a' b'
+  | _, _ => false
+  end.
+Fixpoint words_eqb12 (a : list word) (b : list (list (Z * bool))) : bool :=
+  match a, b with
+  | [], [] => true
+  | w :: a', v :: b' => pairs_eqb12 (map enc_letter12 w) v && words_eqb12 a' b'
+  | _, _ => false
+  end.
+Definition check_tol_case (c : list (Z * Z * bool) * bool * option bool * (list (list (Z * bool)) * Z * bool)) : bool :=
+  let '(its, autoJW, jfr, (ops, imin, extra)) := c in
+  let '(mops, mimin, mextra) := term_to_ops_list (mk_items its) autoJW jfr in
+  words_eqb12 mops ops && (mimin =? imin) && Bool.eqb mextra extra &&
+  (* the flag convention every caller relies on: parity of the term, xor the string coming in from the right *)
+  (if autoJW then Bool.eqb extra (match jfr with Some b => xorb (total_parity (mk_items its)) b | None => total_parity (mk_items its) end)
+   else true).
